@@ -66,6 +66,9 @@ type Prog struct {
 	Boundary string     `json:"boundary"` // "" random, fixed
 	Hdrs     []HdrSpec  `json:"hdrs"`
 	Smime    SmimeSpec  `json:"smime"` // S/MIME signing (C08); Key "" = unsigned
+	// Calls: the builder calls of MsgCalls.tla. When present the message is built by executing them;
+	// Parts / Embeds / Atts then hold the message the specification expects them to leave behind.
+	Calls []string `json:"calls"`
 }
 
 // Fault describes a render fault (C12).
@@ -149,6 +152,9 @@ func Content(class string, rng *rand.Rand, text bool) []byte {
 		return b
 	case "nul":
 		return []byte("a\x00b\x00\x00\r\nc\x00")
+	}
+	if strings.HasPrefix(class, "id") { // idN: the leaf created by call N of a call sequence (MsgCalls.tla)
+		return []byte("content of leaf " + class + ", line one\r\nsecond line of " + class + "\r\n")
 	}
 	if strings.HasPrefix(class, "size") { // sizeN: N bytes, seeded
 		n := 0
@@ -631,6 +637,15 @@ func Build(p Prog, seed int64, failSlot int, failWhen string, tmpdir string) (*B
 			} else {
 				err = m.AttachReader(name, bytes.NewReader(content), fo...)
 			}
+		case src == "buffer": // the caller's scratch buffer is reused after the call
+			buf := bytes.NewBuffer(append([]byte{}, content...))
+			if embed {
+				err = m.EmbedReader(name, buf, fo...)
+			} else {
+				err = m.AttachReader(name, buf, fo...)
+			}
+			buf.Reset()
+			buf.Write(bytes.Repeat([]byte("x"), len(content)))
 		case src == "file":
 			tf, terr := os.CreateTemp(tmpdir, "src-*.bin")
 			if terr != nil {
@@ -703,6 +718,25 @@ func Build(p Prog, seed int64, failSlot int, failWhen string, tmpdir string) (*B
 			return nil, err
 		}
 	}
+	if len(p.Calls) > 0 {
+		// the expectation (Slots) was computed from the lists; the message itself is built by executing
+		// the calls on a fresh Msg
+		fresh := mail.NewMsg(opts...)
+		if err := fresh.From("sender@from.test"); err != nil {
+			return nil, err
+		}
+		if err := fresh.To("rcpt@to.test"); err != nil {
+			return nil, err
+		}
+		fresh.SetDateWithValue(time.Date(2024, 5, 17, 10, 11, 12, 0, time.UTC))
+		fresh.SetMessageIDWithValue("verif.mime@from.test")
+		fresh.Subject("render scenario")
+		if err := runCalls(fresh, p.Calls, rng); err != nil {
+			return nil, err
+		}
+		m = fresh
+		b.Msg = fresh
+	}
 	if p.Smime.Key != "" {
 		ms, err := Materials()
 		if err != nil {
@@ -726,6 +760,60 @@ func Build(p Prog, seed int64, failSlot int, failWhen string, tmpdir string) (*B
 	}
 	sort.Strings(b.TopNames)
 	return b, nil
+}
+
+// runCalls executes the builder calls of MsgCalls.tla on m (after removing what the list-based
+// construction put there). The leaf created by call k carries content class and name "id<k>".
+func runCalls(m *mail.Msg, calls []string, rng *rand.Rand) error {
+	for i, c := range calls {
+		cls := fmt.Sprintf("id%d", i+1)
+		switch c {
+		case "SetBodyP":
+			m.SetBodyString(mail.TypeTextPlain, string(Content(cls, rng, true)))
+		case "SetBodyH":
+			m.SetBodyString(mail.TypeTextHTML, string(Content(cls, rng, true)))
+		case "AddAltP":
+			m.AddAlternativeString(mail.TypeTextPlain, string(Content(cls, rng, true)))
+		case "AddAltH":
+			m.AddAlternativeString(mail.TypeTextHTML, string(Content(cls, rng, true)))
+		case "Del1", "Del2":
+			idx := 0
+			if c == "Del2" {
+				idx = 1
+			}
+			if ps := m.GetParts(); idx < len(ps) {
+				ps[idx].Delete()
+			}
+		case "Embed":
+			m.EmbedReadSeeker(Text(cls, rng), bytes.NewReader(Content(cls, rng, false)))
+		case "Attach":
+			m.AttachReadSeeker(Text(cls, rng), bytes.NewReader(Content(cls, rng, false)))
+		case "UnsetAtt":
+			m.UnsetAllAttachments()
+		case "UnsetEmb":
+			m.UnsetAllEmbeds()
+		case "UnsetParts":
+			m.UnsetAllParts()
+		case "DropFirstAtt":
+			if a := m.GetAttachments(); len(a) > 0 {
+				m.SetAttachments(a[1:])
+			}
+		case "DropFirstEmb":
+			if e := m.GetEmbeds(); len(e) > 0 {
+				m.SetEmbeds(e[1:])
+			}
+		case "RevAtt":
+			a := m.GetAttachments()
+			r := make([]*mail.File, len(a))
+			for j := range a {
+				r[len(a)-1-j] = a[j]
+			}
+			m.SetAttachments(r)
+		default:
+			return fmt.Errorf("unknown builder call %q", c)
+		}
+	}
+	return nil
 }
 
 // ---------------------------------------------------------------------------
@@ -1005,6 +1093,9 @@ func (rn *Runner) Run() {
 	}
 	defer built.Close()
 	var progRaw, slotsRaw interface{}
+	if sc.Prog.Calls == nil {
+		sc.Prog.Calls = []string{} // JSON null is not readable by the TLA+ Json module
+	}
 	pb, _ := json.Marshal(sc.Prog)
 	_ = json.Unmarshal(pb, &progRaw)
 	sb, _ := json.Marshal(built.Slots)
